@@ -184,15 +184,46 @@ def hoist_call_args(tree) -> int:
     return count
 
 
+def no_else_after_return(tree) -> int:
+    """`if c: ...; return X  else: B`  ->  `if c: ...; return X` followed by B (pylint's no-else-return / no-else-raise / no-else-continue)."""
+    count = 0
+    changed = True
+    while changed:
+        changed = False
+        for n in ast.walk(tree):
+            for field in ("body", "orelse", "finalbody"):
+                blk = getattr(n, field, None)
+                if not isinstance(blk, list):
+                    continue
+                for i, st in enumerate(blk):
+                    if isinstance(st, ast.If) and st.orelse and st.body and isinstance(st.body[-1], (ast.Return, ast.Raise, ast.Continue, ast.Break)):
+                        tail = st.orelse
+                        st.orelse = []
+                        blk[i + 1 : i + 1] = tail
+                        count += 1
+                        changed = True
+                        break
+                if changed:
+                    break
+            if changed:
+                break
+    ast.fix_missing_locations(tree)
+    return count
+
+
 def all_three(tree) -> int:
     return invert_branches(tree) + rename_locals(tree) + insert_noops(tree)
+
+
+def all_six(tree) -> int:
+    return no_else_after_return(tree) + hoist_call_args(tree) + annotate_assigns(tree) + invert_branches(tree) + rename_locals(tree) + insert_noops(tree)
 
 
 def all_five(tree) -> int:
     return hoist_call_args(tree) + annotate_assigns(tree) + invert_branches(tree) + rename_locals(tree) + insert_noops(tree)
 
 
-TRANSFORMS = {"rename": rename_locals, "invert": invert_branches, "noops": insert_noops, "all": all_three, "annotate": annotate_assigns, "hoist": hoist_call_args, "all5": all_five}
+TRANSFORMS = {"rename": rename_locals, "invert": invert_branches, "noops": insert_noops, "all": all_three, "annotate": annotate_assigns, "hoist": hoist_call_args, "all5": all_five, "noelse": no_else_after_return, "all6": all_six}
 
 
 def refactored_copy(root: str = "/repo", transform=rename_locals) -> tuple[str, int]:
